@@ -214,6 +214,10 @@ func GenDefault(t *rapid.T) DefaultCase {
 		scheme := rapid.SampledFrom([]string{"Preset", "Digest", "Token", "MAC", "BearerX", "Negotiate", "x"}).Draw(t, "preset-scheme")
 		c.Preset = kit.BStr(headerSafe(scheme + " " + genSecret(t, "preset")))
 	}
+	if rapid.IntRange(0, 2).Draw(t, "rotated") == 0 {
+		r := genCred(t, "R", false)
+		c.Rotated = &r
+	}
 	return c
 }
 
